@@ -70,6 +70,7 @@ func replayHO(idx int, c *MCase, mode string, out *[]Mismatch) {
 		add(0, "catalogue", err.Error())
 		return
 	}
+	o = withTail(o, c.Tail)
 	r := &replica{firstVal: -1}
 	r.checkGid = false // an outer notification that blocks inside the pipeline is emitted from a helper goroutine
 	r.me = gid()
